@@ -1,18 +1,43 @@
-"""Markdown table of the independent seeded changes and which check catches them (for DESIGN.md section 12)."""
+"""Tables of the independent seeded changes and which check catches them.
+
+  python -m vf.selftest.report            full table (markdown; kept in /verif/seeded/TABLE.md)
+  python -m vf.selftest.report --summary  per-property summary (DESIGN.md section 12)
+"""
 import json
 import os
+import sys
 
 VERIF = os.path.dirname(os.path.dirname(os.path.dirname(os.path.abspath(__file__))))
 
 
-def main():
-    rows = []
+def load():
+    out = []
     d = os.path.join(VERIF, "seeded")
     for sid in sorted(os.listdir(d)):
         mp = os.path.join(d, sid, "meta.json")
-        if not os.path.exists(mp):
-            continue
-        m = json.load(open(mp))
+        if os.path.exists(mp):
+            out.append((sid, json.load(open(mp))))
+    return out
+
+
+def status(sid, m):
+    """own | other:<props> | superseded | missed"""
+    prop = m["breaks_property"]
+    det = m.get("detected_by", {})
+    if any(v.get("rc") is None for v in det.values()):
+        return "superseded", []
+    own = [k for k, v in det.items() if k.split(":")[0] == prop and v.get("rc") == 1]
+    others = sorted({k.split(":")[0] for k, v in det.items() if k.split(":")[0] != prop and v.get("rc") == 1})
+    if own:
+        return "own", others
+    if others:
+        return "other", others
+    return "missed", []
+
+
+def full():
+    rows = []
+    for sid, m in load():
         need = " ".join(m.get("needs_to_manifest", "").split())
         first = need.split(". ")[0][:160]
         det = []
@@ -29,5 +54,23 @@ def main():
     print("\n".join(rows))
 
 
+def summary():
+    per = {}
+    for sid, m in load():
+        st, others = status(sid, m)
+        p = per.setdefault(m["breaks_property"], {"own": [], "other": [], "superseded": [], "missed": []})
+        p[st].append(sid.split("-")[1] + (f" ({', '.join(others)})" if st == "other" else ""))
+    print("| property | changes | caught by its own check | caught by another check only | superseded (led to a repair) | missed |")
+    print("|---|---|---|---|---|---|")
+    tot = {"own": 0, "other": 0, "superseded": 0, "missed": 0}
+    for prop in sorted(per):
+        p = per[prop]
+        n = sum(len(v) for v in p.values())
+        for k in tot:
+            tot[k] += len(p[k])
+        print(f"| {prop} | {n} | {len(p['own'])}: {' '.join(p['own'])} | {'; '.join(p['other']) or '-'} | {' '.join(p['superseded']) or '-'} | {' '.join(p['missed']) or '-'} |")
+    print(f"| all | {sum(tot.values())} | {tot['own']} | {tot['other']} | {tot['superseded']} | {tot['missed']} |")
+
+
 if __name__ == "__main__":
-    main()
+    summary() if "--summary" in sys.argv else full()
